@@ -53,9 +53,7 @@ def call(self, n):
     if f.id == 'Col' and len(args) == 2:
       a, ta = self.expr(args[0])
       b, tb = self.expr(args[1])
-      if ta != 'str' or tb != ('L', 'cell'):
-        fail(n, 'Col(%r, %r)' % (ta, tb))
-      return '(%s, %s)' % (a, b), 'gcol'
+      return '(%s, %s)' % (coerce(a, ta, 'str', n), coerce(b, tb, ('L', 'cell'), n)), 'gcol'
     if f.id == 'next' and len(args) == 2 and isinstance(args[0], ast.GeneratorExp) and \
        isinstance(args[1], ast.Constant) and args[1].value is None:
       code, ety = self.comp(args[0])
